@@ -80,6 +80,8 @@ class Ctx:
         self.outcome = None
         self.uf_tables = {}
         self._claim_names = set()
+        self.partial = None    # (rng, keep_free probability) -> most input entries concrete, a few symbolic
+        self.n_symbolic_entries = 0
 
     # -- inputs
     @property
@@ -109,10 +111,21 @@ class Ctx:
         shape = tuple(shape)
         if self.mode == "sym":
             arr = fresh(name, shape, complex_=complex_)
+            if self.partial is not None:
+                # partial concretisation: keep only the entries selected by the plan symbolic
+                plan = self.partial
+                v = self._concrete_vals(name, shape, complex_, lo, hi, positive)
+                for k, idx in enumerate(np.ndindex(*shape)):
+                    if (name, k) in plan["free"]:
+                        self.n_symbolic_entries += 1
+                        continue
+                    arr[idx] = C(S(float(v[idx].real)), S(float(v[idx].imag))) if complex_ else S(float(v[idx]))
+                plan["seen"].append((name, int(np.prod(shape)) if shape else 1))
             self.inputs[name] = arr
             if positive:
                 for e in arr.reshape(-1):
-                    self.ex.assume(e > 0)
+                    if isinstance(e, S) and e.sym:
+                        self.ex.assume(e > 0)
             t = T(arr, dtype=symtorch.ops.CPLX if complex_ else symtorch.ops.FLOAT)
         else:
             v = self._concrete_vals(name, shape, complex_, lo, hi, positive)
@@ -138,7 +151,7 @@ class Ctx:
     def const(self, value, dtype=torch.float64):
         """a concrete tensor of the right kind for the mode"""
         t = torch.as_tensor(value, dtype=dtype)
-        if self.mode == "real":
+        if self.mode == "real" or isinstance(t, SymTensor):
             return t
         return T(symtorch.from_real(t), dtype=t.dtype)
 
@@ -223,6 +236,8 @@ class Ctx:
                     break
                 if st == "unknown":
                     status = "unknown"
+                    if m is not None and model is None:
+                        model = m
             return self._record(name, status, time.time() - t,
                                 model=self._model_inputs(model) if model is not None else None)
         fa, fb = _to_float_array(a), _to_float_array(b)
@@ -451,6 +466,13 @@ def run_config(prop, cfg_id, scenario, params, opts):
     def one_path(ex_):
         cx = Ctx("sym", ex=ex_)
         one_path.cx = cx
+        try:
+            return _one_path_body(cx)
+        finally:
+            one_path.shapes = {n: (tuple(a.shape), bool(a.size and isinstance(a.reshape(-1)[0], C)))
+                               for n, a in cx.inputs.items()}
+
+    def _one_path_body(cx):
         with SymMode():
             if first[0]:
                 first[0] = False
@@ -492,7 +514,14 @@ def run_config(prop, cfg_id, scenario, params, opts):
                         "source": "symbolic"}
                 _replay_candidate(scenario, params, cand, res)
             elif c["status"] == "unknown":
-                res["inconclusive"].append({"path": rec["prefix"], "why": "solver unknown on claim %s" % c["name"]})
+                confirmed = False
+                if c.get("model") is not None:
+                    # candidate from the linear abstraction: only counts if the real code violates the claim on it
+                    cand = {"claim": c["name"], "detail": c["detail"], "path": rec["prefix"], "values": c["model"],
+                            "source": "abstraction-candidate"}
+                    confirmed = _replay_candidate(scenario, params, cand, res, tentative=True)
+                if not confirmed:
+                    res["inconclusive"].append({"path": rec["prefix"], "why": "solver unknown on claim %s" % c["name"]})
         if cx.ex.concretized:
             bad = [loc for loc in cx.ex.concretized if not _format_site(loc)]
             if bad:
@@ -508,6 +537,13 @@ def run_config(prop, cfg_id, scenario, params, opts):
             res["inconclusive"].append({"path": "*", "why": "time budget exhausted after %d paths" % len(pathrecs)})
             ex.truncated = True
             break
+    # witness hunt: when some claim stayed undecided, re-run the real code with most input entries fixed to seeded
+    # rationals and two or three entries symbolic; on such low-dimensional instances the solver decides every path, and
+    # a refuted claim is replayed on the real code like any other counterexample
+    shapes = getattr(one_path, "shapes", None)
+    undecided = any("solver unknown" in i.get("why", "") for i in res["inconclusive"])
+    if shapes and (undecided or opts.get("hunt_always")) and not res["violations"]:
+        _hunt(scenario, params, opts, res, shapes, deadline + opts.get("hunt_budget_s", 90))
     if ex.truncated and not any(i["path"] == "*" for i in res["inconclusive"]):
         res["inconclusive"].append({"path": "*", "why": "path bound %d reached" % ex.max_paths})
     res["paths"] = pathrecs
@@ -550,6 +586,48 @@ def _jacobian_solve_ignores_tol():
     return _GUARD_CACHE["jac"]
 
 
+def _hunt(scenario, params, opts, res, shapes, deadline):
+    import random
+    entries = [(n, k) for n, (shp, _c) in sorted(shapes.items()) for k in range(int(np.prod(shp)) if shp else 1)]
+    if len(entries) < 3:
+        return
+    rounds = opts.get("hunt_rounds", 8)
+    hunted = {"rounds": 0, "paths": 0, "queries": 0, "refuted": 0}
+    for rnd in range(rounds):
+        if time.time() > deadline or res["violations"]:
+            break
+        rs = random.Random(SEED * 1009 + rnd * 17 + 5)
+        free = set(rs.sample(entries, 2 if rnd % 2 == 0 else 3))
+        ex = Explorer(timeout_ms=4000, logic=opts.get("logic"), max_paths=40, max_decisions=opts.get("max_decisions", 300))
+
+        def one(ex_):
+            cx = Ctx("sym", ex=ex_, rng=random.Random(SEED * 7 + rnd))
+            cx.partial = {"free": free, "seen": []}
+            one.cx = cx
+            with SymMode():
+                cx.outcome = scenario(cx, **params)
+            return cx
+        hunted["rounds"] += 1
+        for prefix, out in ex.run(_wrap_exceptions(one)):
+            hunted["paths"] += 1
+            if time.time() > deadline:
+                break
+            if not isinstance(out, Ctx):
+                continue
+            for c in out.claims:
+                if c["status"] == "refuted" and c.get("model") is not None:
+                    hunted["refuted"] += 1
+                    cand = {"claim": c["name"], "detail": c["detail"], "path": "hunt%d:%s" % (
+                        rnd, "".join("T" if b else "F" for b in prefix)), "values": c["model"], "source": "hunt"}
+                    if _replay_candidate(scenario, params, cand, res, tentative=True):
+                        break
+            if res["violations"]:
+                break
+        hunted["queries"] += ex.nqueries
+        res["queries"] = res.get("queries", 0)
+    res["hunt"] = hunted
+
+
 def _format_site(loc):
     """is file:line a string-formatting / printing site (where NaN text is harmless), or an allow-listed site
     whose value provably does not matter?"""
@@ -578,8 +656,16 @@ def _wrap_exceptions(fn):
     return g
 
 
-def _replay_candidate(scenario, params, cand, res):
-    """run the candidate counterexample on the real code (float64, real LAPACK, no shim)"""
+def _replay_candidate(scenario, params, cand, res, tentative=False):
+    """run the candidate counterexample on the real code (float64, real LAPACK, no shim); returns True when the
+    violation is confirmed.  tentative: the candidate is only a hint (no error if it does not reproduce)"""
+    if tentative:
+        sub = {"violations": [], "harness_errors": [], "inconclusive": []}
+        _replay_candidate(scenario, params, cand, sub, tentative=False)
+        if sub["violations"]:
+            res["violations"].extend(sub["violations"])
+            return True
+        return False
     vals = cand.get("values")
     if vals is None:
         cand["confirmed"] = False
